@@ -644,3 +644,30 @@ package schema
 
 //@ func CallableSchema.CallSignal(s, ctx, runID, stepID, signalID, serializedInputData) -> err
 //@   ensures !(stepID in s.StepsValue) ==> typeOf(err) == type(BadArgumentError)
+
+// ---------------------------------------------------------------------------------------------
+// C15 (continued): enum value sets, map size overlap, one-of members, list items, object rules
+// ---------------------------------------------------------------------------------------------
+
+//@ spec structInd(x any) bool = rv_valid(rv_indirect(rv_of(x))) && kind(rv_type(rv_indirect(rv_of(x)))) == KindStruct
+//@ spec otherEnumField(x any) RV = rv_field(rv_field(rv_indirect(rv_of(x)), "EnumSchema"), "ValidValuesMap")
+//@ spec otherEnumKey(x any, j int) any = rv_iface(rv_convert(rv_key(otherEnumField(x), j), type(T)))
+
+//@ func EnumSchema.ValidateCompatibility(e, typeOrData) -> err
+//@   checks err == nil && structInd(typeOrData) && rv_valid(rv_field(rv_indirect(rv_of(typeOrData)), "EnumSchema")) ==> (forall j int :: 0 <= j && j < rv_len(otherEnumField(typeOrData)) ==> convertible(rv_type(rv_key(otherEnumField(typeOrData), j)), type(T)) && otherEnumKey(typeOrData, j).(T) in e.ValidValuesMap)
+//@   loop 1 invariant forall j int :: 0 <= j && j <= idx ==> convertible(rv_type(rv_key(otherEnumField(typeOrData), j)), type(T)) && otherEnumKey(typeOrData, j).(T) in e.ValidValuesMap
+
+//@ func MapSchema.validateSchemaCompatibility(m, schemaType) -> err
+//@   requires schemaType != nil
+//@   checks err == nil ==> tid(schemaType) == TypeIDMap && compatOK(m.KeysValue, keysType) && compatOK(m.ValuesValue, valuesType) && !disjointI(m.MinValue, m.MaxValue, minValue, maxValue)
+//@   checks tid(schemaType) == TypeIDMap && structInd(schemaType) && rv_valid(keysField) && rv_valid(valuesField) && rv_valid(minField) && rv_valid(maxField) && compatOK(m.KeysValue, keysType) && compatOK(m.ValuesValue, valuesType) && !disjointI(m.MinValue, m.MaxValue, minValue, maxValue) ==> err == nil
+
+//@ func OneOfSchema.validateSchema(o, otherSchema) -> err
+//@   ensures otherSchema.DiscriminatorFieldNameValue != o.DiscriminatorFieldNameValue ==> err != nil
+//@   ensures err == nil ==> (forall k KeyType :: k in o.TypesValue ==> k in otherSchema.TypesValue && otherSchema.TypesValue[k] != nil && compatOK(o.TypesValue[k], any(otherSchema.TypesValue[k])))
+//@   ensures otherSchema.DiscriminatorFieldNameValue == o.DiscriminatorFieldNameValue && (forall k KeyType :: k in o.TypesValue ==> k in otherSchema.TypesValue && otherSchema.TypesValue[k] != nil && compatOK(o.TypesValue[k], any(otherSchema.TypesValue[k]))) ==> err == nil
+//@   loop 1 invariant forall k KeyType :: k in visited ==> k in otherSchema.TypesValue && otherSchema.TypesValue[k] != nil && compatOK(o.TypesValue[k], any(otherSchema.TypesValue[k]))
+
+//@ interface Object.ValidateCompatibility(this, typeOrData) -> err
+//@   names (err == nil) == compatOK(this, typeOrData)
+//@   assigns nothing
